@@ -41,7 +41,7 @@ for d in sorted(glob.glob(os.path.join(VERIF, "seeded", "*"))):
                        capture_output=True, text=True, env=dict(os.environ, VERIF_REPO=scratch))
     wall = time.time() - t0
     viol = [l for l in q.stdout.splitlines() if l.startswith("VIOLATION ")]
-    verdict = "CAUGHT" if q.returncode == 1 and viol else f"MISSED (exit {q.returncode})"
+    verdict = f"CAUGHT ({len(viol)} workers / engines reported)" if q.returncode == 1 and viol else f"MISSED (exit {q.returncode})"
     rows.append((name, pid, verdict, wall))
     print(f"{name}: {verdict} in {wall:.0f}s", flush=True)
     if harvest and viol:
